@@ -2,6 +2,7 @@
 #include "recjson.h"
 #include "mp/flat/model_api_base.h"
 #include "rec_c04.h"
+namespace mp { void RecDumpLinks(pre::BasicValuePresolver &); }  // recmodelmgr.cc (C19 extension)
 
 std::unique_ptr<mp::BasicBackend> CreateRecBackend() {
   return std::unique_ptr<mp::BasicBackend>{new mp::RecBackend()};
@@ -11,6 +12,8 @@ namespace mp {
 
 std::unique_ptr<BasicModelManager>
 CreateRecModelMgr(RecCommon &, Env &, pre::BasicValuePresolver *&);
+/// C20: log every registered link entry with its final extent (defined in recmodelmgr.cc)
+void RecLogFinalLinks(pre::BasicValuePresolver &, RecState &);
 
 RecBackend::RecBackend() {
   set_st(&st_);
@@ -62,8 +65,10 @@ bool RecBackend::IsMIP() const {
 
 void RecBackend::Solve() {
   st_.Log("{\"ev\":\"solve\"}");
-  DumpGraphOnce();
-  if (std::getenv("RECSOLVER_C04")) rec_c04::RunCalls(GetValuePresolver(), st_);
+  RecDumpLinks(GetValuePresolver());                       // C19: RECSOLVER_LINKS=<file>
+  if (const char *l = std::getenv("RECSOLVER_LINKS")) if (*l == '1') RecLogFinalLinks(GetValuePresolver(), st_);  // C20: RECSOLVER_LINKS=1
+  DumpGraphOnce();                                         // C04: RECSOLVER_C04=1 (event `linkgraph`)
+  if (std::getenv("RECSOLVER_C04")) rec_c04::RunCalls(GetValuePresolver(), st_);   // C04: RECSOLVER_C04_CALLS=<file>
   if (st_.throw_in_solve == 1) throw std::runtime_error("scripted runtime_error in Solve");
   if (st_.throw_in_solve == 2) throw mp::Error("scripted mp::Error in Solve", st_.code);
   if (st_.throw_in_solve == 3) throw mp::UnsupportedError("scripted UnsupportedError in Solve");
